@@ -195,15 +195,36 @@ func kindBseq(c *hlib.Ctx) {
 		g := pickMesh(c, 300)
 		m, label = g.m, "whole:"+baseLabel(g.label)
 	case 1:
-		// a disc with an interior triangle removed: two boundary loops
+		// a disc with an interior triangle removed (no corner on the boundary): two boundary loops
 		d, _ := pickDisc(c, 200)
-		m = d.Copy()
-		ts := m.TriangleSlice()
-		m.Remove(ts[c.Rng.Intn(len(ts))])
-		label = "disc-minus-triangle"
-		if m.NumTriangles() == 0 {
+		var seq []model3d.Coord3D
+		if st := watchdog(func() { seq = model3d.VerifBoundarySequence(d) }); st != "ok" {
 			return
 		}
+		onB := map[model3d.Coord3D]bool{}
+		for _, p := range seq {
+			onB[p] = true
+		}
+		var cands []*model3d.Triangle
+		for _, t := range d.TriangleSlice() {
+			if !onB[t[0]] && !onB[t[1]] && !onB[t[2]] {
+				cands = append(cands, t)
+			}
+		}
+		if len(cands) == 0 {
+			return
+		}
+		sort.Slice(cands, func(i, j int) bool {
+			for k := 0; k < 3; k++ {
+				if cands[i][k] != cands[j][k] {
+					return less3(cands[i][k], cands[j][k])
+				}
+			}
+			return false
+		})
+		m = d.Copy()
+		m.Remove(cands[c.Rng.Intn(len(cands))])
+		label = "disc-minus-interior-triangle"
 	default:
 		d, l := pickDisc(c, 300)
 		m, label = d, "disc:"+baseLabel(l)
@@ -495,12 +516,15 @@ func kindSystem(c *hlib.Ctx) {
 // solver, tolerance 1e-6) and the exact UV validity check on the float outputs.
 func kindParam(c *hlib.Ctx) {
 	p := newSetup(c, c.Rng.Intn(4) == 0, 130)
+	emitParam(c, p, c.Rng.Intn(4) == 0, 1+c.Rng.Intn(4))
+}
+
+func emitParam(c *hlib.Ctx, p *paramSetup, stretch bool, iters int) {
 	x := p.x
 	var res *model3d.CoordMap[model2d.Coord]
-	stretch := c.Rng.Intn(4) == 0
 	st := watchdog(func() {
 		if stretch {
-			res = model3d.StretchMinimizingParameterization(x.m, p.boundary, p.weights, nil, 1+c.Rng.Intn(4), 0.75, false)
+			res = model3d.StretchMinimizingParameterization(x.m, p.boundary, p.weights, nil, iters, 0.75, false)
 		} else {
 			res = model3d.Floater97(x.m, p.boundary, p.weights, nil)
 		}
@@ -527,6 +551,12 @@ func kindParam(c *hlib.Ctx) {
 		fmt.Fprintf(&b, " %d %s %s", id, r(v.X), r(v.Y))
 	}
 	c.Emit(head+b.String(), "resid=ok uv=ok")
+}
+
+// setupFor builds a paramSetup for a given disc with a library boundary and weight function.
+func setupFor(d *model3d.Mesh, boundary *model3d.CoordMap[model2d.Coord], weights *model3d.EdgeMap[float64], bdesc, wdesc string) *paramSetup {
+	x := index(d)
+	return &paramSetup{x: x, nbrs: neighborsOf(x), boundary: boundary, weights: weights, bdesc: bdesc, wdesc: wdesc, lo: -1, hi: 1}
 }
 
 // ---------------------------------------------------------------- automatic atlas
@@ -788,5 +818,38 @@ func fixedCases(c *hlib.Ctx) {
 			}
 		}
 		c.Emit(b.String(), "ok")
+	}
+	// a fan of four triangles over a square with weights 1/4: the right-hand side is exactly zero
+	{
+		ctr := model3d.XYZ(0, 0, 1)
+		ring := []model3d.Coord3D{model3d.XYZ(1, 0, 0), model3d.XYZ(0, 1, 0), model3d.XYZ(-1, 0, 0), model3d.XYZ(0, -1, 0)}
+		sq := []model2d.Coord{model2d.XY(1, 0), model2d.XY(0, 1), model2d.XY(-1, 0), model2d.XY(0, -1)}
+		m := model3d.NewMesh()
+		bd := model3d.NewCoordMap[model2d.Coord]()
+		w := model3d.NewEdgeMap[float64]()
+		for i := range ring {
+			m.Add(&model3d.Triangle{ctr, ring[i], ring[(i+1)%4]})
+			bd.Store(ring[i], sq[i])
+			w.Store([2]model3d.Coord3D{ctr, ring[i]}, 0.25)
+		}
+		emitParam(c, setupFor(m, bd, w, "square-fan", "quarter"), false, 0)
+		emitParam(c, setupFor(m, bd, w, "square-fan", "quarter"), true, 2)
+	}
+	// grid patches (corner "ear" triangles) with the library's own weights, plain and stretch-minimising
+	for n := 1; n <= 3; n++ {
+		m := heightField(c, n, n)
+		for k := 0; k < 3; k++ {
+			var w *model3d.EdgeMap[float64]
+			wd := ""
+			switch k {
+			case 0:
+				w, wd = model3d.Floater97UniformWeights(m), "uniform"
+			case 1:
+				w, wd = model3d.Floater97InvChordLengthWeights(m, 1), "invchord"
+			default:
+				w, wd = model3d.Floater97ShapePreservingWeights(m), "shape"
+			}
+			emitParam(c, setupFor(m, model3d.CircleBoundary(m), w, "circle", wd), true, 2)
+		}
 	}
 }
